@@ -60,21 +60,28 @@ class C12(Check):
     def gen(self):
         r = self.rng
         src, _ = genzip.build([Entry(b"s0", b"source zero " * 3, method=8), Entry(b"s1", b"one")])
-        A = self.alphabet(src)
+        A_full = self.alphabet(src)
+        # the 65,536-byte name costs 128 KiB per occurrence in the request text: it takes part in the exhaustive sequences
+        # up to depth 2, in the depth-3 sample of the quick tier and in the random programs, not in the exhaustive depths 3-4
+        A_small = [a_ for a_ in A_full if not (a_[0] == "file" and len(a_[1]) > 65535)]
         progs = []
         depth = 3 if self.tier == "quick" else 4
         for d in range(1, depth + 1):
             if d < depth or self.tier == "thorough":
+                A = A_full if d <= 2 else A_small
                 for seq in itertools.product(range(len(A)), repeat=d):
                     progs.append([A[i] for i in seq])
             else:
+                A = A_full
                 allseq = list(itertools.product(range(len(A)), repeat=d))
                 for seq in r.sample(allseq, 9000):
                     progs.append([A[i] for i in seq])
+        A = A_full
         more = BAD_EXTRAS[1:3]
         for _ in range(3000 if self.tier == "quick" else 60000):
             n = r.choice([4, 5, 6, 8, 12, 30]) if r.random() < 0.98 else 200
-            ops = [r.choice(A) for _ in range(n)]
+            AA = A_full if (self.tier == "quick" or r.random() < 0.03) else A_small
+            ops = [r.choice(AA) for _ in range(n)]
             if r.random() < 0.2:
                 ops.insert(r.randrange(len(ops)), ("write", r.choice(more)))
             progs.append(ops)
